@@ -73,6 +73,28 @@ def correspond_diff(ctx, name, plan, diff_text, cwd, describe):
     return correspond_diff_batch(ctx, name, [(plan, diff_text, cwd, describe)])
 
 
+CONTEXT_CLAUSES = ("line_before", "line_after")
+
+
+def context_problems(plan, cwd, files):
+    """each 'before' line is the file's current line, each match's 'after' line is that line with THAT match replaced:
+    judged for every hunk against the file bytes (not only for single-hunk lines), on lines in C15's scope"""
+    out = []
+    for p in planoracle.check_plan(plan, cwd, files):
+        if p["clause"] not in CONTEXT_CLAUSES or p.get("hunk") is None:
+            continue
+        m = plan["matches"][p["hunk"]]
+        data = files.get(planoracle.resolve(cwd, m["file"]))
+        if data is not None:
+            ls = data.rfind(b"\n", 0, m["start"]) + 1
+            if not planoracle.is_valid_utf8(data[ls:m["start"]]):
+                continue          # invalid UTF-8 in front of the match: outside C15's scope (C03 finding)
+        q = dict(p)
+        q["file"], q["line"] = os.path.relpath(planoracle.resolve(cwd, m["file"]), cwd), m["line"]
+        out.append(q)
+    return out
+
+
 def splice_files(plan, cwd, files):
     """reference result of apply (left-to-right splice per file); None if the plan is outside the reference guard"""
     out = dict(files)
@@ -196,7 +218,8 @@ def _cli_apply(case, tree):
         res.update({"status": "ok" if rc2 == 0 else "apply_failed", "plan": plan, "diff": diff, "before": before, "after": after,
                     "apply_err": err2.decode("utf-8", "replace")[-300:]})
         # a failed apply leaves no applied tree: the 'before' sides of the preview are still judged
-        res["problems"] = planoracle.check_preview(plan, diff, d, before, after if rc2 == 0 else None)
+        res["problems"] = context_problems(plan, d, before) + \
+            planoracle.check_preview(plan, diff, d, before, after if rc2 == 0 else None)
         res["plan_problems"] = planoracle.check_plan(plan, d, before)
         for p in res["problems"] + res["plan_problems"]:
             p["detail"] = p["detail"].replace(d, "<root>")
@@ -227,6 +250,7 @@ def run(ctx):
                         "replacements contain no newline (true of every case-aware plan; a witness shows what happens otherwise)",
                         "only the uncoloured diff and the plan JSON are in scope (table/matches/summary previews and ANSI colouring are not)",
                         "similar's line differ breaks at a lone CR; the block is compared after re-joining its lines"]
+    c03mod.run_translator(ctx)
     ctx.prove(PROP)
     ok, msg = common.cargo_build()
     if not ok:
@@ -249,6 +273,7 @@ def run(ctx):
                       "styles": "-" if rng.random() < 0.7 else
                       ",".join(rng.sample(["snake", "camel", "kebab", "pascal", "title", "dot", "screaming_snake"], 3))})
     batch = []
+    geom_batch = []
     with common.scratch() as root:
         for i, (c, (d, files, out)) in enumerate(zip(cases, c03mod.scan_batch(cases, root))):
             if out[1] != "ok":
@@ -272,11 +297,13 @@ def run(ctx):
                     ctx.count("line:long")
             describe = {"tree": c03mod.tree_to_json(c["tree"]), "search": c["search"], "replace": c["replace"], "styles": c["styles"]}
             batch.append((plan, diff, d, describe))
+            reqs_g, want_g = c03mod.geom_requests(plan, d, files)
+            geom_batch.append((describe, reqs_g, want_g))
             after = splice_files(plan, d, files)
             if after is None:
                 # the plan does not fit the file (C03's subject): the 'before' sides can still be judged
                 ctx.count("scan:outside_reference_guard")
-            probs = planoracle.check_preview(plan, diff, d, files, after)
+            probs = context_problems(plan, d, files) + planoracle.check_preview(plan, diff, d, files, after)
             if probs:
                 for p in probs:
                     p["detail"] = p["detail"].replace(d, "<root>")
@@ -284,6 +311,8 @@ def run(ctx):
                               observed=probs[:5], note=probs[0]["detail"])
                 return
     correspond_diff_batch(ctx, "diffline: render_plan(Diff) vs Hunks.diffAfterText", batch)
+    c03mod.check_geom_batch(ctx, "hunkgeom: line_before / line_after / char_offset of real plans vs Hunks.hunkGeomAtG Gen.lineAfterColumnIsByte",
+                            geom_batch)
     # ---- (b) hostile hand-made plans: correspondence only --------------------------------------------------
     hp = hostile_plans(rng, 1500 if T else 400)
     reqs = ["renderdiff " + hexs(json.dumps(p)) for _, p in hp]
